@@ -84,6 +84,22 @@ def serde_names(prog, item):
     return out
 
 
+def serde_rejects_unknown(prog, item):
+    """(found, rejects): does the generated `visit_str` of this enum answer an unlisted name with `Error::unknown_variant`?
+    (`#[serde(other)]` replaces that call by a catch-all variant)"""
+    short = item["path"].split("::", 1)[1]
+    found = False
+    for b in prog.bodies.values():
+        if not b.defp.endswith("::visit_str") or "deserialize" not in b.defp:
+            continue
+        if f"for {short}>" not in b.local_ty(0) and f"for {short}>" not in b.local_ty(1):
+            continue
+        found = True
+        if any((c.method or last_seg(c.name)) == "unknown_variant" for (_, c, _) in b.calls()):
+            return True, True
+    return found, False
+
+
 def _field_index(b, blk):
     seen = set()
     work = [blk]
@@ -281,6 +297,14 @@ def run(ctx):
             for a in aliases:
                 ok = sum(1 for (_, _, ac) in sn.values() if a in ac) == 1 and all(a != p for p, _, _ in sn.values())
                 ctx.ob("G1", it["path"], f"{nm}:{var}:alias:{a}", where, ok, f"alias {a!r} only names {var}", ordinal=False)
+        fnd, rej = serde_rejects_unknown(prog, it)
+        if not fnd:
+            ctx.anchor_lost("G1", f"generated visit_str of {nm}")
+        else:
+            ctx.ob("G1", it["path"], f"{nm}:unlisted-name-is-an-error", where, rej,
+                   "the generated visit_str answers an unlisted name with Error::unknown_variant" if rej else
+                   "an unlisted name is not an error: the deserialiser has a catch-all (#[serde(other)]), so a misspelt or undocumented name "
+                   "silently selects a fallback instead of stopping start-up", ordinal=False)
         for d in documented[nm]:
             vs = primaries.get(d, [])
             ctx.ob("G1", it["path"], f"{nm}:documented:{d}", where, len(vs) == 1, f"documented name {d!r} is the primary name of {vs or 'no variant'}", ordinal=False)
